@@ -240,7 +240,8 @@ class C20(Check):
                     ("ok", "start\n100000\ndone\n"), {"limit": "array fill", "op": "100000-element input array"}, True))
 
         # ---- printf widths
-        for w in (WIDTH - 1, WIDTH, WIDTH + 1, WIDTH + 2, WIDTH * 10, 99999999999999999999, 2 ** 31, 2 ** 32, 2 ** 63 - 1, 2 ** 63, 2 ** 63 + 1, 2 ** 64, 5000, 1000, 1):
+        for w in (WIDTH - 1, WIDTH, WIDTH + 1, WIDTH + 2, WIDTH * 10, 99999999999999999999, 5000, 1000, 1,
+                  2 ** 31 - 1, 2 ** 31, 2 ** 32, 2 ** 32 + 1, 2 ** 63 - 1, 2 ** 63, 2 ** 63 + 1, 2 ** 64, 2 ** 64 + 5):
             for sign in ("", "-"):
                 for verb, arg, text in (("s", "\"x\"", "x"), ("f", "2.5", "2.5"), ("v", "[1]", "[1]")):
                     for zero in (("", "0") if verb == "f" and w < WIDTH * 10 and not sign else ("",)):
